@@ -444,11 +444,68 @@ def operator_table_cases():
     return out
 
 
+SHAPE_LEAVES = [("lit", ref.num(3.0)), ("lit", ref.num(0.0)), ("var", "a"), ("var", "z"), ("var", "f"), ("var", "s")]
+SHAPE_ENV = {"a": ref.num(5.0), "z": ref.NIL, "f": ref.FALSE, "s": ("str", "s")}
+
+
+def expression_shape_cases(thorough):
+    """EVERY expression of two operators over a small set of operands (two number literals - one of them the result of nothing, 0 -, a
+    number variable, a nil, a false and a string variable): `(x op2 y) op1 w` and `w op1 (x op2 y)` for all 19 x 19 pairs of binary operators,
+    and the three unary operators under and over every binary one; printed with only the parentheses the grammar needs.  A compiler
+    that treats one syntactic shape specially (a peephole, a fold, a fused jump) gets every such shape here, with operands on which the
+    shape's value differs from its neighbours'."""
+    out = []
+    un = ["-", "!", "~"]
+    leaves = SHAPE_LEAVES
+    step = 1 if thorough else 1
+    for op1 in BIN:
+        for side in ("L", "R"):
+            lines = ["var a = 5; var z = nil; var f = false; var s = \"s\";"]
+            expected = []
+            inner = []
+            for op2 in BIN:
+                for x in leaves:
+                    for y in leaves:
+                        inner.append(("bin", op2, x, y))
+            for u in un:
+                for x in leaves:
+                    inner.append(("un", u, x))
+            for sub in inner:
+                for w in leaves:
+                    e = ("bin", op1, sub, w) if side == "L" else ("bin", op1, w, sub)
+                    try:
+                        if has_nan_cmp(e, SHAPE_ENV):
+                            continue
+                        v = ref.evaluate(e, SHAPE_ENV, [])
+                        expected.append(ref.display(v))
+                    except ref.YErr as err:
+                        expected.append("ERR %s %s" % (err.kind, err.msg))
+                    lines.append('try { print(%s); } catch e { print("ERR " + String.from(type(e))[7..-1] + " " + e.context); }' % ref.to_src(e)[0])
+            out.append(("shape:%s:%s" % (op1, side), "\n".join(lines) + "\n", expected))
+    # a unary operator over every binary expression
+    for u in un:
+        lines = ["var a = 5; var z = nil; var f = false; var s = \"s\";"]
+        expected = []
+        for op2 in BIN:
+            for x in leaves:
+                for y in leaves:
+                    e = ("un", u, ("bin", op2, x, y))
+                    try:
+                        if has_nan_cmp(e, SHAPE_ENV):
+                            continue
+                        expected.append(ref.display(ref.evaluate(e, SHAPE_ENV, [])))
+                    except ref.YErr as err:
+                        expected.append("ERR %s %s" % (err.kind, err.msg))
+                    lines.append('try { print(%s); } catch e { print("ERR " + String.from(type(e))[7..-1] + " " + e.context); }' % ref.to_src(e)[0])
+        out.append(("shape:unary%s" % u, "\n".join(lines) + "\n", expected))
+    return out
+
+
 def correspondence(ctx, model_ok=True):
     rng = ctx.rng.fork("c05")
     failures = []
     broken = []
-    table = operator_table_cases()
+    table = operator_table_cases() + expression_shape_cases(ctx.thorough)
     tres, _ = progs.run_programs(ctx.runner, [(n, s, {}) for n, s, _ in table], {"gc": "default"}, steps_budget=50000000, tag="o")
     for (name, src, exp), r in zip(table, tres):
         c = progs.canon_step(r)
@@ -456,10 +513,10 @@ def correspondence(ctx, model_ok=True):
         if c[0] != "ok" or len(printed) != len(exp) or not all(same_value_text(x, y) for x, y in zip(printed, exp)):
             k = next((i for i in range(min(len(printed), len(exp))) if not same_value_text(printed[i], exp[i])), min(len(printed), len(exp)))
             stmts_ = [l for l in src.split("\n") if l.startswith("try")]
-            failures.append({"what": "operator table %s: `%s` prints %r, the operator's definition gives %r (status %s %s)" % (
+            failures.append({"what": "%s: `%s` prints %r, the operator's definition gives %r (status %s %s)" % (
                 name, stmts_[k][6:stmts_[k].index(");") + 2] if k < len(stmts_) else "?", printed[k:k + 1], exp[k:k + 1], c[0], list(c[3])[:1] if len(c) > 3 else ""),
                 "program": src if len(src) < 6000 else "\n".join([l for l in src.split("\n") if l.startswith("var")] + (stmts_[k:k + 1] if k < len(stmts_) else [])) + "\n",
-                "expected_at": exp[k:k + 1], "printed_at": printed[k:k + 1], "signature": "operator table " + name.split(":")[1], "failing_input": True})
+                "expected_at": exp[k:k + 1], "printed_at": printed[k:k + 1], "signature": ("operator table " if name.startswith("optable") else "expression shape ") + name.split(":")[1], "failing_input": True})
     n_e = 15000 if ctx.thorough else 1200
     n_c = 15000 if ctx.thorough else 1200
     cases = []
